@@ -6,7 +6,7 @@
    resolution of clip-path / mask / filter links are section variables; the theorems hold for every
    instantiation.  `use` and nested `svg` reach their content only through `convert_children` /
    `convert_clip_path_elements`, so they receive those as callbacks. *)
-From Coq Require Import String.
+From Coq Require Import String Ascii.
 From RV Require Import Model.Base Model.ConvBase Gen.ConvTables.
 Local Open Scope string_scope.
 
@@ -36,6 +36,23 @@ Definition eval_vis (tg : option tag) (a : attrs) (t : vis_test) : bool :=
   end.
 (* SvgNode::is_visible_element *)
 Definition is_visible (tg : option tag) (a : attrs) : bool := forallb (eval_vis tg a) visible_tests.
+
+(* switch.rs is_valid_sys_lang on the trimmed entries of a systemLanguage value *)
+Fixpoint before_dash (e : string) : option string :=
+  match e with
+  | EmptyString => None
+  | String c r => if Ascii.eqb c "-"%char then Some EmptyString
+                  else match before_dash r with Some p => Some (String c p) | None => None end
+  end.
+Definition eval_lang_rule (r : lang_rule) (user entry : string) : bool :=
+  match r with
+  | LR_Exact => String.eqb user entry
+  | LR_PrefixDash => match before_dash entry with Some p => String.eqb user p | None => false end
+  | LR_StartsWith => String.prefix user entry
+  end.
+Definition entry_matches (users : list string) (entry : string) : bool :=
+  existsb (fun r => existsb (fun u => eval_lang_rule r u entry) users) sys_lang_rules.
+Definition sys_lang_ok (users entries : list string) : bool := existsb (entry_matches users) entries.
 
 Definition geom_of (a : attrs) (g : geom_attr) : Q :=
   match g with GA_Width => a_width a | GA_Height => a_height a | GA_R => a_r a | GA_Rx => a_rx a | GA_Ry => a_ry a end.
